@@ -37,6 +37,10 @@ CHECKS = {
    text="Bounded symbolic model checking of the real repository operations over in-memory stores: CreateRepo by two concurrent creators of the same name, every interleaving at store-call granularity (the solver decides before each store operation whether the other creator runs first), with and without a pre-existing repository - exactly one creator succeeds (none if the repository exists), exactly one descriptor write lands and it is the winner's; DeleteRepo of r next to r2 (whose name extends r's) for every combination of a two-file-list bundle, an empty bundle and two labels, under both store behaviours for deleting a missing key - it terminates, nothing of r remains under repos/, bundles/ or labels/ and every object of r2 is byte-identical; RenameRepo over the same universe - all bundle descriptors (id, count, message), file lists (byte-identical) and labels appear under the new name, the old repository is gone, r2 is untouched, and with a read fault on a file list the call returns an error (no crash) leaving the old repository intact; DeleteEntriesFromRepo for every subset of {a, c, zz} - every file list holds exactly its remaining entries in order, unaffected lists are not rewritten, descriptors, labels and other repositories are untouched.",
    note="Trusted: go/ssa, gosmt interpreter (natively cross-validated), yaml.v2 as round-tripping opaque documents, in-memory stores (put-atomic), one cooperative schedule inside each listing. Outside: more than two creators, more than 2 bundles / 3 file lists, faults other than the file-list read in rename, leftovers of interrupted uploads under a deleted repository.",
    design="DESIGN.md §6 C09"),
+ "C10": dict(
+   text="Bounded symbolic model checking of the real squash (RepoSquash with its keys-only ListBundles, ListLabels, semver.ParseTolerant from source, DeleteBundle, ListBundlesApply, DeleteLabel) over in-memory stores: three (thorough four) bundle ids each absent / committed / leftover of an interrupted upload, a semver-like and a plain label each absent or pointing at any committed bundle, retain-N 1..2 (thorough 1..3), retain-tags none / all / semver, next to a repository r2 whose name extends r's - afterwards the committed bundles left are exactly the N most recent committed ones plus the retained label targets, with byte-identical descriptors and file lists; every other committed bundle is gone with its file lists; labels of kept bundles are intact and labels of removed bundles are removed; the most recent committed bundle survives whatever leftovers exist; r2 and all repository descriptors are untouched; a listing afterwards shows exactly the kept bundles.",
+   note="Trusted: go/ssa, gosmt interpreter (natively cross-validated), yaml.v2 as round-tripping opaque documents, in-memory stores, one cooperative schedule inside each listing. Outside: more than 4 bundles / 2 labels, store faults during squash, content download of the kept bundles (C04), labels pointing at leftovers.",
+   design="DESIGN.md §6 C10"),
  "C11": dict(
    text="Bounded symbolic model checking of the real diamond merge (Diamond.mergeSplits with its merger goroutine, fileIndex.Download/unpack/downloadAll/downloadIndex, mergeEntryToFilePacked, GenerateConflictPath/GenerateCheckpointPath, go-immutable-radix from source) against a reference written from the statement: 2 splits x 2 paths with symbolic presence, symbolic 1-byte content hashes and symbolic distinct upload seconds, and 3 splits x 1 path (split k uploaded at second k), in all 4 conflict modes and for every arrival order of the split index files - the main tree holds exactly the uploaded paths with the latest version of each, conflict/checkpoint mode files every other distinct version under .conflicts|.checkpoints/<uploading split>/<path> with that split's content and nothing else, ignore mode adds nothing, forbid mode fails iff two splits disagree on a path, and the HasConflicts/HasCheckpoints flags match. Thorough adds 3 splits x 2 paths with one index file per (split, path). Known finding C11-F1.",
    note="Trusted: go/ssa, gosmt interpreter (natively cross-validated), cooperative goroutine/channel model with file-list download concurrency 1 (arrival order = the solver-chosen permutation), yaml.v2 as round-tripping opaque documents, in-memory metadata store. Outside: more than 3 splits, equal upload times, the single-split == plain upload clause, fileIndex.pack's time stamping, implCommit around the merge.",
